@@ -235,7 +235,7 @@ func doExplore(t *testing.T, job *Job) {
 		}
 		seed := runSeedFor(job.BaseSeed, idx)
 		c := def.Generate(sim.NewRng(seed), job.Property, job.Tier, idx)
-		if !c.Sched.Dense && sim.NewRng(seed^0xd5e5e).Chance(1, 8) {
+		if !c.Sched.Dense && c.Knob("no_dense", 0) == 0 && sim.NewRng(seed^0xd5e5e).Chance(1, 8) {
 			// dense scheduling (R9): every statement of the library is a scheduling point
 			c.Sched.Dense = true
 			c.Sched.MaxSteps *= 4
